@@ -15,19 +15,36 @@
                transaction in which every operation succeeded the committed data is exactly the
                previous data plus its writes, after Abort exactly the previous data; no panic;
      k_hit   : the step is in the guard of finding K-C13-stickymulti: a Put/Get issued outside an
-               explicit transaction after some Start has succeeded (pgDb.multi is never cleared).
+               explicit transaction after some Start has succeeded (pgDb.multi is never cleared);
+     k_dsw   : ... of finding K-C13-dumpswallow: a Dump in which a fault fired at or after its
+               deferred Commit (in the Commit or in the iteration that follows it).
+   PDump k = Dump(k), Dumper.Next until nil, Close: a transaction of its own next to pdb.tx, which
+   it must end exactly once (k_hyg: the count of open transactions after the operation is what the
+   client's mode demands) and which must leave pdb.tx alone (k_rec at the next Stop). Dump resets
+   the language of the store; the monitor judges Put/Get under the language in force.
    All theorems quantify over every key context c, every initial content, every operation
-   sequence (Put/Get/Start/Stop/Abort/Close) and EVERY fault oracle (any number of faults). *)
+   sequence (Put/Get/Start/Stop/Abort/Close/Dump) and EVERY fault oracle (any number of faults). *)
 From Vise Require Import Bytes Errors Consts PgTx PgProofs.
 Local Open Scope N_scope.
 
-(* Full strength, no guard: in every history, every operation other than Abort (which has no error
-   result: its Rollback error is dropped) in which a fault fired returns an error. The row-fetch fault
-   on the DEFAULT key is reported as ErrNotFound (rs.Err() is not consulted there) — an error, so the
-   demand holds; on the translated key it is reported as the fault itself (since 8748493). *)
-Theorem C13_fault_reports_error : forall c init ops orc,
-  forallb k_fault (pg_checks c init ops orc) = true.
-Proof. exact fault_run. Qed.
+(* FULL STATEMENT (false, see C13_refuted_dumpswallow):
+     forall c init ops orc, forallb k_fault (pg_checks c init ops orc) = true.
+   Proved for every step outside the guard of K-C13-dumpswallow: every operation other than Abort
+   (no error result) in which a fault fired returns an error — including Dump when BeginTx, the
+   query, the first fetch or the first Scan fails. The row-fetch fault on the DEFAULT key of a Get
+   and on the first row of a Dump is reported as ErrNotFound (rs.Err() not consulted) — an error. *)
+Theorem C13_fault_reports_error_partial : forall c init ops orc,
+  forallb (fun k => k_dsw k || k_fault k) (pg_checks c init ops orc) = true.
+Proof. exact fault_guarded_run. Qed.
+
+Theorem C13_refuted_dumpswallow :
+  exists c init ops orc,
+    dsw_hit (pg_checks c init ops orc) = true
+    /\ sticky_hit (pg_checks c init ops orc) = false
+    /\ forallb k_fault (pg_checks c init ops orc) = false
+    /\ map o_res (pg_run c init ops orc) = [POk; POk; PRows [(s2b "a", s2b "1")]]
+    /\ map o_res (pg_run c init ops []) = [POk; POk; PRows [(s2b "a", s2b "1"); (s2b "ab", s2b "2")]].
+Proof. exact refuted_dumpswallow_lemma. Qed.
 
 (* regression for the repaired finding K-C13-trfetch: the failed row fetch on the translated key is
    now reported instead of silently answering with the default-language row *)
@@ -44,13 +61,26 @@ Proof. exact trfetch_reported_lemma. Qed.
 (* FULL STATEMENT (false, see C13_refuted_stickymulti):
      forall c init ops orc, forallb k_hyg (pg_checks c init ops orc) = true.
    Proved for every step up to the first one inside the guard of K-C13-stickymulti (k_hit is
-   monotone along a history). *)
+   monotone along a history). Covers Dump: on every path the transaction Dump began is committed or
+   rolled back exactly once before it returns. *)
 Theorem C13_tx_hygiene_partial : forall c init ops orc,
   forallb (fun k => k_hit k || k_hyg k) (pg_checks c init ops orc) = true.
 Proof. exact hyg_guarded_all. Qed.
 
-(* without any guard: never two open transactions, never a call on a finished transaction (every
-   transaction is ended at most once), never a nil dereference *)
+(* regression for the repaired finding K-C13-dumpleak (f3dc6ab): prefix UNKNOWN, no fault; Dump fails
+   in ToKey and now rolls its transaction back (it used to stay open: OpenTx 1; 2; 1) *)
+Example C13_dumpleak_fixed :
+  let c := mkCfg DATATYPE_UNKNOWN safe_lock (s2b "s") None in
+  let ops := [PDump (s2b "a"); PStart; PStop] in
+  c13_full (pg_checks c [] ops []) = true
+  /\ map o_res (pg_run c [] ops []) = [PErr EGen; POk; POk]
+  /\ map o_open (pg_run c [] ops []) = [0; 1; 0]
+  /\ map o_evs (pg_run c [] ops []) =
+     [[mkEv KBegin 1 0; mkEv KRollback 1 0]; [mkEv KBegin 2 0]; [mkEv KCommit 2 0]].
+Proof. exact dumpleak_fixed_lemma. Qed.
+
+(* without any guard, sticky or not: never two open transactions when an operation returns, never a call on a finished transaction (every transaction is ended at
+   most once), never a nil dereference *)
 Theorem C13_tx_hygiene_unconditional : forall c init ops orc,
   forallb (fun ob => (o_open ob <=? 1) && negb (pres_eqb (o_res ob) PPanic) && negb (has_done (o_evs ob)))
           (pg_run c init ops orc) = true.
@@ -76,13 +106,13 @@ Proof. exact refuted_stickymulti_lemma. Qed.
 
 (* explicit transactions, fault-free, from any idle state (no transaction open, pool not closed,
    oracle exhausted — pgDb.multi may even be stuck at true): if every operation of
-   Start; body; Stop succeeds, the committed data afterwards is the previous data with all writes
-   of the body applied, and nothing is left open *)
+   Start; body; Stop (body over Put/Get/Dump) succeeds, the committed data afterwards is the previous
+   data with all writes of the body applied, and nothing is left open *)
 Theorem C13_multi_commit_at_stop : forall c st body,
   idle st -> forallb data_op body = true ->
   forallb (fun ob => negb (is_perr (o_res ob))) (pg_trace c st (PStart :: body ++ [PStop])) = true ->
   let st' := pg_final c st (PStart :: body ++ [PStop]) in
-  s_comm (p_srv st') = apply_kv (body_writes c body []) (s_comm (p_srv st)) /\ s_open (p_srv st') = [].
+  s_comm (p_srv st') = apply_kv (body_writes c (p_lang st) body) (s_comm (p_srv st)) /\ s_open (p_srv st') = [].
 Proof. exact multi_commit_at_stop_lemma. Qed.
 
 (* ... and after Abort the committed data is exactly what it was *)
@@ -92,6 +122,18 @@ Theorem C13_multi_none_after_abort : forall c st body,
   let st' := pg_final c st (PStart :: body ++ [PAbort]) in
   s_comm (p_srv st') = s_comm (p_srv st) /\ s_open (p_srv st') = [].
 Proof. exact multi_none_after_abort_lemma. Qed.
+
+(* a failing Dump leaves an explicit transaction alone (the seeded change C13-m3 breaks exactly this):
+   the Dump query fails, Dump rolls back its own transaction, Stop commits both writes *)
+Example C13_dump_fault_in_tx :
+  let ops := [PStart; PPut (s2b "a") (s2b "1"); PDump (s2b "a"); PPut (s2b "b") (s2b "1"); PStop] in
+  let orc := [false; false; false; true] in
+  c13_full (pg_checks wit_user [] ops orc) = true
+  /\ map o_res (pg_run wit_user [] ops orc) = [POk; POk; PErr EFault; POk; POk]
+  /\ map o_open (pg_run wit_user [] ops orc) = [1; 1; 1; 1; 0]
+  /\ o_comm (last (pg_run wit_user [] ops orc) (mkPobs POk 0 [] [])) =
+     [(32 :: s2b "s.a", s2b "1"); (32 :: s2b "s.b", s2b "1")].
+Proof. exact dump_fault_in_tx_lemma. Qed.
 
 (* non-vacuity: a history outside the guard with three faults (Commit of the second Put, the row
    fetch of the first Get, BeginTx of the third Put; then an explicit transaction) satisfies the
@@ -110,7 +152,8 @@ Example C13_nonvacuous :
   /\ o_comm (last (pg_run wit_user [] ops orc) (mkPobs POk 0 [] [])) = [(32 :: s2b "s.a", s2b "3")].
 Proof. vm_compute. repeat split. Qed.
 
-Print Assumptions C13_fault_reports_error.
+Print Assumptions C13_fault_reports_error_partial.
+Print Assumptions C13_refuted_dumpswallow.
 Print Assumptions C13_tx_hygiene_partial.
 Print Assumptions C13_tx_hygiene_unconditional.
 Print Assumptions C13_recovers_partial.
